@@ -30,6 +30,7 @@ package objfile
 //gvc:  opt coarse
 //gvc:  opt frame args
 //gvc:  ensures complete: result == nil && !old(w.closed) ==> w.pending == 0
+//gvc:  ensures returned_once: calls("PutZlibWriter") <= 1 && (calls("PutZlibWriter") == 1 ==> !old(w.closed) && w.closed)
 //gvc:  sink Put requires private: false
 //gvc:end
 
